@@ -21,3 +21,14 @@ Definition hex_key (m : list (N * N * N)) (item : text) : option N :=
   | a :: b :: _ => hex_lookup m a b
   | _ => None
   end.
+
+(* a variable that holds a str or None *)
+Definition opt_nonempty (o : option text) : bool := match o with Some (_ :: _) => true | _ => false end.
+Definition opt_is_none (o : option text) : bool := match o with None => true | Some _ => false end.
+
+(* s[0] (the callers guard it with `s and ...`) *)
+Definition py_char0 (s : text) : N := match s with c :: _ => c | [] => 0 end.
+
+(* self.port: an int or None *)
+Definition oz_truthy (o : option Z) : bool := match o with Some p => negb (Z.eqb p 0) | None => false end.
+Definition oz_get (o : option Z) : Z := match o with Some p => p | None => 0%Z end.
